@@ -341,15 +341,26 @@ def run_errors_case(case):
                 def __call__(self, *a):
                     pass
             body[name] = Callable_()
-    put('m1', m1, lambda self, x: None)
-    put('m2', m2, lambda self, x, y=None: None)
+    if vclass == 2:
+        # the candidate is a class used as an object that directly provides the interface: its methods are static
+        put('m1', m1, staticmethod(lambda x: None))
+        put('m2', m2, staticmethod(lambda x, y=None: None))
+        for k_ in ('m1', 'm2'):
+            if k_ in body and not isinstance(body[k_], (staticmethod, int)) and getattr(body[k_], '__name__', '') == '<lambda>':
+                body[k_] = staticmethod(lambda: None)       # "too few": no parameter at all
+    else:
+        put('m1', m1, lambda self, x: None)
+        put('m2', m2, lambda self, x, y=None: None)
     K = type('K', (object,), body)
-    if declares:
+    if declares and vclass == 2:
+        from zope.interface import directlyProvides
+        directlyProvides(K, ISub)
+    elif declares:
         K = implementer(ISub)(K)
     expected = []
     if not tentative and not declares:
         expected.append(DoesNotImplement)
-    if attr_state == 1 and not vclass:
+    if attr_state == 1 and vclass != 1:
         expected.append(BrokenImplementation)   # verifyClass cannot check plain attributes (docs/verify.rst)
     for st in (m1, m2):
         if st == 1:
@@ -358,7 +369,7 @@ def run_errors_case(case):
             expected.append(BrokenMethodImplementation)
     reached(case, dict(case=case, expected=[e.__name__ for e in expected]))
     try:
-        (verifyClass if vclass else verifyObject)(ISub, K if vclass else K(), tentative=bool(tentative))
+        (verifyClass if vclass == 1 else verifyObject)(ISub, K if vclass else K(), tentative=bool(tentative))
         got = None
     except MultipleInvalid as e:
         got = e
@@ -387,7 +398,7 @@ def make_e_errors(params, part, nparts):
     def h(declares: int, tentative: int, attr_state: int, m1: int, m2: int, vclass: int):
         c_m1 = pick(m1, 5)
         assume(c_m1 % nparts == part)
-        case = (pick(declares, 2), pick(tentative, 2), pick(attr_state, 2), c_m1, pick(m2, 5), pick(vclass, 2))
+        case = (pick(declares, 2), pick(tentative, 2), pick(attr_state, 2), c_m1, pick(m2, 5), pick(vclass, 3))
         native(run_errors_case, case)
     return h
 
@@ -416,7 +427,7 @@ HARNESSES = [
     Harness('e_errors', make_e_errors, kind='E', impls=('py',),
             tiers=dict(quick=dict(budget_s=60, parts=5), thorough=dict(budget_s=120, parts=5)),
             encoded=_ENC,
-            bounds='every subset of {undeclared, tentative, missing attribute, method missing/wrong signature/non-callable/uninspectable x2 (one inherited)} x verifyObject/verifyClass',
+            bounds='every subset of {undeclared, tentative, missing attribute, method missing/wrong signature/non-callable/uninspectable x2 (one inherited)} x verifyObject(instance) / verifyClass / verifyObject(class that directly provides the interface)',
             oracle='exact exception type; MultipleInvalid members as a multiset of types',
             assumptions=['verifyClass does not check presence of plain attributes (docs/verify.rst)']),
 ]
